@@ -158,6 +158,10 @@ class Calls:
                     if g:
                         argc = tuple(c for a_ in args if isinstance(a_, Str) for c in a_.cells())
                         e.facts = e.facts | {('gen',) + g, ('gen2', fn.mod, fn.name, g, argc)}
+        if fn.name == 'validate' and args and isinstance(args[0], Str):
+            # this very string was accepted by this module's validate() on the paths that return
+            for e, v in outs:
+                e.facts = e.facts | {('validated', fn.mod, skey(args[0]))}
         if multi:
             for e, v in outs:
                 e.frames = e.frames[:-1]
